@@ -112,6 +112,8 @@ def walk_local(fnode):
     stack = list(fnode.body) if hasattr(fnode, 'body') and isinstance(fnode.body, list) else [fnode]
     while stack:
         n = stack.pop()
+        if isinstance(n, (ast.FunctionDef, ast.AsyncFunctionDef, ast.ClassDef, ast.Lambda)):
+            continue
         yield n
         for c in ast.iter_child_nodes(n):
             if isinstance(c, (ast.FunctionDef, ast.AsyncFunctionDef, ast.ClassDef, ast.Lambda)):
